@@ -287,6 +287,35 @@ def g_chain_program(rng, tier):
     return mains + flows
 
 
+def g_competing_program(rng, tier):
+    """Flows that COMPETE: 2-3 dialog flows starting with the same user intent (equal priorities, or explicit
+    `priority` lines), each continuing with a bot / execute statement (or, sometimes, a user statement: it cannot
+    decide), plus an unrelated flow with its own intent that can interrupt them."""
+    nm = Names()
+    shared = nm.user()
+    n = rng.choice([2, 2, 3])
+    prios = None
+    if rng.random() < 0.45:
+        prios = [rng.choice([0.5, 1.0, 1.0, 2.0, 2.0]) for _ in range(n)]
+    flows = []
+    for i in range(n):
+        first = rng.random()
+        if first < 0.65:
+            body = [{"b": nm.bot()}]
+        elif first < 0.85:
+            body = [{"x": [nm.act(), [], rng.choice([None, "r"])]}]
+        else:
+            body = [{"u": nm.user()}, {"b": nm.bot()}]
+        body += g_block(rng, nm, [], 1, False, rng.choice([0, 1, 2]))
+        f = {"name": f"c{i}", "sub": False, "body": [{"u": shared}] + body}
+        if prios:
+            f["prio"] = prios[i]
+        flows.append(f)
+    if rng.random() < 0.5:
+        flows.insert(rng.randrange(len(flows) + 1), {"name": "other", "sub": False, "body": [{"u": nm.user()}, {"b": nm.bot()}, {"u": nm.user()}, {"b": nm.bot()}]})
+    return flows
+
+
 def g_compute_program(rng, tier):
     """Computation loops: `while` loops in which whole iterations run without reaching a blocking statement
     (counters, accumulators, nested loops, a step under an `if` that is not taken in the first iterations,
@@ -415,6 +444,8 @@ def render(flows):
     out = []
     for f in flows:
         out.append(("define subflow " if f["sub"] else "define flow ") + f["name"])
+        if f.get("prio") is not None:
+            out.append(f"  priority {f['prio']}")
         r_block(f["body"], 1, out)
         out.append("")
     return "\n".join(out)
@@ -549,7 +580,15 @@ class Ref:
 
     def __init__(self, flows):
         self.bodies = {f["name"]: f["body"] for f in flows}
-        self.starts = {f["body"][0]["u"]: f["name"] for f in flows if not f["sub"]}
+        # flows that start with the same intent COMPETE: `start_lists` keeps them in source order
+        self.start_lists = {}
+        for f in flows:
+            if not f["sub"]:
+                self.start_lists.setdefault(f["body"][0]["u"], []).append(f["name"])
+        self.starts = {i: names[0] for i, names in self.start_lists.items()}
+        self.prio = {f["name"]: (f.get("prio") if f.get("prio") is not None else 1.0) for f in flows}
+        self.saved = None        # the flow suspended by an interrupting flow: (run, pending)
+        self.abstain_next = False
         self.ctx = {}
         self.upd = {}
         self.run = None  # (flow name, generator)
@@ -571,7 +610,14 @@ class Ref:
             if starting:
                 self.finished_on_start = True
             if self.suspended:
-                self.abstain = True  # the interrupted flow comes back: no claim about it
+                # "Flows are resumed when the interruption flow completes" (compute_next_state): the interrupted flow
+                # comes back at ITS OWN statement, with the context as the interrupting flow left it
+                if self.saved is not None:
+                    self.run, self.pending = self.saved
+                    self.saved = None
+                    self.suspended = False
+                else:
+                    self.abstain = True
         except _EvalError:
             self.error = True
             self.abstain = True
@@ -579,9 +625,44 @@ class Ref:
             self.abstain = True
 
     def _start(self, name):
+        names = self.start_lists.get(self.bodies[name][0]["u"], [name])
+        if len(names) > 1:
+            return self._start_competing(names)
         self.run = (name, ref_block(self.bodies[name], self.ctx, self.upd, self.bodies, [4000]))
         self._advance()  # the start intent itself
         self._advance(starting=True)
+
+    def _start_competing(self, names):
+        """Several flows start with this intent: all of them start (in source order, on the shared context); the next
+        step is the one of the flow with the highest priority that can decide something, the FIRST such flow among
+        equals ("the first one that can decide something will be used", compute_next_state).  No claim afterwards."""
+        if self.suspended:
+            self.abstain = True
+            return
+        cands = []
+        for name in names:
+            gen = ref_block(self.bodies[name], self.ctx, self.upd, self.bodies, [4000])
+            try:
+                next(gen)
+                cands.append((name, gen, next(gen)))
+            except StopIteration:
+                self.finished_on_start = True
+                cands.append((name, gen, None))
+            except _EvalError:
+                self.error = True
+                self.abstain = True
+                return
+            except (_Break, _Continue):
+                self.abstain = True
+                return
+        able = [c for c in cands if c[2] is not None and c[2][0] in ("bot", "act")]
+        self.abstain_next = True
+        if not able:
+            self.run, self.pending = None, None
+            return
+        best = max(self.prio[c[0]] for c in able)
+        name, gen, pend = next(c for c in able if self.prio[c[0]] == best)
+        self.run, self.pending = (name, gen), pend
 
     def feed(self, ev):
         k = ev["e"]
@@ -597,12 +678,21 @@ class Ref:
             return
         if self.abstain:
             return
+        if self.abstain_next:
+            self.abstain = True
+            return
         if k == "user":
             if self.run and self.pending == ("user", ev["i"]):
                 self._advance()
             elif self.run and self.pending and self.pending[0] == "user" and ev["i"] in self.starts and self.starts[ev["i"]] != self.run[0] and not self.suspended:
                 self.suspended = True
+                self.saved = (self.run, self.pending)
                 self._start(self.starts[ev["i"]])
+            elif self.run and self.pending and self.pending[0] == "user" and ev["i"] not in self.starts and not (self.saved and self.saved[1] == ("user", ev["i"])):
+                # no flow starts with this intent and the waiting flow does not expect it: the flow is interrupted by
+                # nobody and resumed at once ("if already there are no more flows to interrupt, we should resume") —
+                # it keeps its position
+                pass
             elif self.run and self.pending and self.pending[0] in ("bot", "act") and not self.suspended:
                 # left at a bot/execute statement: the flow (and the flows that called it) is aborted, i.e. over;
                 # another flow may start on this very event, the same flow only on a later one
@@ -910,6 +1000,11 @@ def gen_cases(rng, tier):
         flows = [g_program, g_program, g_chain_program, g_compute_program][i % 4](sub3, tier)
         for _ in range(2):
             cases.append({"kind": "fn", "flows": flows, "history": g_reentry_history(sub3, flows), "seed": sub3.randrange(1 << 30)})
+    sub4 = random.Random(rng.randrange(1 << 30))
+    for _ in range(40 if tier == "quick" else 800):
+        flows = g_competing_program(sub4, tier)
+        for mode in ("follow", "leave"):
+            cases.append({"kind": "fn", "flows": flows, "history": g_history(sub4, flows, mode), "seed": sub4.randrange(1 << 30)})
     sub2 = random.Random(rng.randrange(1 << 30))
     for _ in range(n_comp):
         flows = g_compute_program(sub2, tier)
@@ -1717,6 +1812,12 @@ def oracle(case, obs):
         return f"REUSE: prefix {k}: fresh flow configs decide {d}, used ones {u}"
     if case["kind"] == "rt" and not obs.get("rt_same", True):
         return f"REUSE: a used RuntimeV1_0 continues the same conversation differently: {obs['rt_diff']}"
+    # (c) the action loop: `$r = execute a` assigns the action's return value BEFORE the flow goes on — in every turn
+    # driven through generate_events, the Finished event of a successful action with a result key is preceded by a
+    # ContextUpdate carrying that value, unless the context already holds it
+    msg = oracle_assign(obs)
+    if msg:
+        return msg
     for sm in obs.get("slides_m", []):
         if not sm["out"].get("only_private", True):
             return f"REUSE: slide({sm['flow']}, head={sm['head']}) changed an element dict beyond `_active_label` / `_active_label_data`"
@@ -1732,6 +1833,53 @@ def oracle(case, obs):
         if got["ok"] != e:
             return ("ZOMBIE" if (flags[k] or obs["zombie"][k]) else "FOLLOW") + f": prefix {k}: decided {got['ok']}, the flow's next statement gives {e}"
     return None
+
+
+def oracle_assign(obs):
+    script = obs.get("gen_script") or []
+    call = 0
+    for t, g in enumerate(obs.get("gen", [])):
+        ctx = {}
+        for e in g["events"]:
+            if e["e"] == "ctx":
+                for k, v in e["d"]:
+                    ctx[k] = v
+            if e["e"] == "hide":
+                ctx = None   # what the flows see was rebuilt from a shortened history: no claim in this turn
+                break
+        pending = None
+        for e in g["new"]:
+            if e[0] == "start":
+                res = script[call] if call < len(script) else None
+                call += 1
+                pending = (e[1], e[3], res)
+                seen = None
+            elif e[0] == "ctx":
+                if ctx is not None:
+                    for k, v in e[1]:
+                        ctx[k] = v
+                if pending is not None:
+                    seen = dict((k, json.dumps(v, sort_keys=True)) for k, v in e[1])
+            elif e[0] == "fin" and pending is not None:
+                name, rk, res = pending
+                pending = None
+                if ctx is None or res is None or res.get("status") != "success" or not rk or not e[2] or e[1] != name:
+                    continue
+                want = res.get("ret")
+                have = ctx.get(rk)
+                if json.dumps(have, sort_keys=True) != json.dumps(want, sort_keys=True) and not _py_equal(have, want):
+                    return (f"ASSIGN: generate_events turn {t}: `${rk} = execute {name}` returned {want} but the flow went on "
+                            f"(InternalSystemActionFinished) while ${rk} was {have}")
+            elif e[0] == "hide":
+                ctx = None
+    return None
+
+
+def _py_equal(a, b):
+    try:
+        return tr.val_from_model(a) == tr.val_from_model(b)
+    except Exception:  # noqa
+        return False
 
 
 def zombie_region(case, obs):
